@@ -227,8 +227,10 @@ impl Literal {
                 false
             }
             (Literal::Range(min, max, num_ty), Type::Array(elem_ty, size)) => {
+                // the last element must be representable, `as_bits` only keeps the low bits
                 elem_ty.as_ref() == &Type::Unsigned(*num_ty)
                     && max.checked_sub(*min) == Some(*size as u64)
+                    && num_ty.max().is_none_or(|ty_max| max.saturating_sub(1) <= ty_max)
             }
             _ => false,
         }
